@@ -59,7 +59,21 @@ def path_trace(ctx, res):
     ctx.trace(res, "path", "Trace_Path.tla", "Trace_Path.cfg", n=4000 if ctx.quick else 60000, timeout_s=300 if ctx.quick else 1800)
 
 
+def c13(ctx, res):
+    t = "quick" if ctx.quick else "thorough"
+    for name in ("xml", "json", "xmlh", "jsonh"):
+        ctx.gen_replay(res, "stream", "MC_Stream.tla", "MC_Stream_%s_%s.cfg" % (name, t), workers=8)
+    # streams cut inside a document (error paths of the same machine)
+    ctx.gen_replay(res, "stream", "MC_Stream.tla", "MC_Stream_cut_%s.cfg" % t, workers=8)
+    ctx.gen_replay(res, "stream", "MC_Stream.tla", "MC_Stream_jsoncut_quick.cfg", workers=8)
+    ctx.gen_replay(res, "file", "MC_Stream.tla", "MC_Stream_files.cfg", workers=4)
+    res.assumptions += ["encoding/xml finds the end of the root element (document boundaries of XML streams are given by construction)",
+                        "Reads are of one byte (the adaptors and getJson always pass a 1-byte buffer), so a schedule is a sequence of per-byte outcomes D/DE/Z/E",
+                        "liveness (every call returns) is checked by TLC under weak fairness with the zero-read budget in the state"]
+
+
 PROPS = {
+    "C13": c13,
     "C10": c10,
     "C11": c11,
     "C12": c12,
